@@ -227,9 +227,45 @@ def uniform_axis_params(rng, dyadic=True):
     return xmin, xmax, n, dx, (bl, br)
 
 
-def touch(p, rng):
-    """Read some freshly computed attributes of p and overwrite the returned arrays (a careless caller)."""
+def call_methods(p, rng):
+    """Call a few non-mutating public methods of the partition's set and grid (results discarded or scribbled on)."""
+    import odl
+    if p.ndim == 0:
+        return []
+    S, G = p.set, p.grid
+    mid = [float(v) for v in S.mid_pt]
+    mid1 = mid if p.ndim > 1 else mid[0]
+    S2, G2 = odl.IntervalProd(0, 1), odl.RectGrid([0.25, 0.75])
+    calls = {
+        'set.collapse': lambda: S.collapse(0, mid[0]), 'set.collapse_all': lambda: S.collapse(list(range(p.ndim)), mid),
+        'set.collapse_lo': lambda: S.collapse(p.ndim - 1, float(S.min_pt[-1])),
+        'set.squeeze': lambda: S.squeeze(), 'set.insert': lambda: S.insert(0, S2), 'set.append': lambda: S.append(S2),
+        'set.dist': lambda: S.dist(mid1), 'set.corners': lambda: S.corners(), 'set.element': lambda: S.element(),
+        'set.contains_set': lambda: S.contains_set(G), 'set.getitem': lambda: S[::-1], 'set.measure': lambda: S.measure(),
+        'set.arith': lambda: (S + 1.0, S * 2.0, -S), 'set.approx': lambda: S.approx_equals(S2, 0.1),
+        'grid.squeeze': lambda: G.squeeze(), 'grid.insert': lambda: G.insert(0, G2), 'grid.corners': lambda: G.corners(),
+        'grid.points': lambda: G.points(), 'grid.getitem': lambda: G[...], 'grid.hull': lambda: G.convex_hull(),
+        'grid.corner_grid': lambda: G.corner_grid(), 'grid.subgrid': lambda: G.is_subgrid(G),
+        'part.getitem': lambda: p[...], 'part.squeeze': lambda: p.squeeze(), 'part.byaxis': lambda: p.byaxis[0],
+        'part.index': lambda: p.index(mid1), 'part.points': lambda: p.points(), 'part.repr': lambda: repr(p),
+    }
     log = []
+    for name in rng.sample(sorted(calls), rng.randint(1, 4)):
+        try:
+            r = calls[name]()
+        except Exception as e:   # invalid for this partition (e.g. nothing to collapse): the state must still be intact
+            r = None
+            name += '!' + type(e).__name__
+        if isinstance(r, np.ndarray) and r.dtype.kind == 'f' and r.flags.writeable and rng.random() < 0.5:
+            r[...] = -7.0
+        log.append(name)
+    return log
+
+
+def touch(p, rng):
+    """Read some freshly computed attributes of p and overwrite the returned arrays (a careless caller);
+    call non-mutating methods of its set / grid."""
+    log = call_methods(p, rng) if rng.random() < 0.6 else []
     for _ in range(rng.randint(1, 4)):
         what = rng.choice(['cell_sides', 'cell_sizes_vecs', 'stride', 'extent', 'cell_volume', 'fracs', 'grid_pts'])
         if what == 'cell_sides':
@@ -309,8 +345,11 @@ def correspondence(rng, tier):
         trace = []
         for _ in range(rng.randint(4, 14)):
             k = rng.randrange(K)
-            what = rng.choice(['sd', 'sd', 'sz', 'stride', 'extent', 'volume', 'fr', 'bd', 'gextent', 'mid'])
+            what = rng.choice(['sd', 'sd', 'sz', 'stride', 'extent', 'volume', 'fr', 'bd', 'gextent', 'mid', 'methods', 'methods'])
             p = parts[k]
+            if what == 'methods':
+                trace.append((k, call_methods(p, rng), False))
+                continue
             if what == 'stride':
                 arr = [p.grid.stride]
             elif what == 'extent':
@@ -567,6 +606,125 @@ def correspondence(rng, tier):
             {'op': 'nonuniform_partition', 'cs': css, 'kw': repr(kw), 'nodes_on_bdry': repr(pf)})
     return [cs]
 
+
+
+# ---------------------------------------------- receiver-must-not-change probes (P12) and axis-argument oracles (P13)
+RECV_PRE = r"""import odl, numpy as np
+S = odl.IntervalProd(%(lo)r, %(hi)r); G = odl.RectGrid(*%(css)r); p = odl.RectPartition(S, G)
+S2 = odl.IntervalProd(0, 1); G2 = odl.RectGrid([0.25, 0.75]); p2 = odl.RectPartition(S2, G2)
+nd = p.ndim
+mid = [float(v) for v in S.mid_pt]
+mid1 = mid if nd > 1 else mid[0]
+def snap():
+    return repr((S.min_pt.tolist(), S.max_pt.tolist(), [v.tolist() for v in G.coord_vectors],
+                 p.min_pt.tolist(), p.max_pt.tolist(), p.extent.tolist(), [v.tolist() for v in p.coord_vectors],
+                 [v.tolist() for v in p.cell_boundary_vecs], [v.tolist() for v in p.cell_sizes_vecs],
+                 p.cell_sides.tolist(), G.stride.tolist(), G.min_pt.tolist(), G.max_pt.tolist(),
+                 p.boundary_cell_fractions, p.nodes_on_bdry_byaxis,
+                 S2.min_pt.tolist(), S2.max_pt.tolist(), [v.tolist() for v in G2.coord_vectors],
+                 [v.tolist() for v in p2.cell_boundary_vecs]))
+def tiles(t):
+    ok = True
+    for ax in range(t.ndim):
+        b = t.cell_boundary_vecs[ax]; c = t.coord_vectors[ax]
+        ok = ok and len(b) == len(c) + 1 and b[0] == t.min_pt[ax] and b[-1] == t.max_pt[ax]
+        ok = ok and bool(np.all(np.diff(b) >= 0) and np.all(b[:-1] <= c) and np.all(c <= b[1:]))
+        ok = ok and t.extent[ax] == b[-1] - b[0]
+    return bool(ok)
+def arrays(r, depth=0):
+    if isinstance(r, np.ndarray):
+        yield r
+    elif isinstance(r, (tuple, list)) and depth < 3:
+        for x in r:
+            for a in arrays(x, depth + 1):
+                yield a
+    elif isinstance(r, odl.RectPartition):
+        for a in arrays((r.set, r.grid, r.cell_boundary_vecs), depth + 1):
+            yield a
+    elif isinstance(r, odl.IntervalProd):
+        for a in (r.min_pt, r.max_pt):
+            yield a
+    elif isinstance(r, odl.RectGrid):
+        for a in r.coord_vectors:
+            yield a
+before = snap()
+obj = {'set': S, 'grid': G, 'part': p}[%(which)r]
+raised = None
+try:
+    r = eval(%(expr)r)
+    if hasattr(r, '__next__'):
+        r = list(r)[:3]
+except Exception as e:
+    r = None; raised = type(e).__name__
+ok = snap() == before and tiles(p) and tiles(p2)
+stage = 'call'
+if ok and %(write)r:
+    for a in arrays(r):
+        if a.flags.writeable and a.dtype.kind in 'fc':
+            a[...] = 123.0
+    stage = 'write-into-result'
+    ok = snap() == before and tiles(p) and tiles(p2)
+observed = (stage, raised, snap()); expected = before
+"""
+
+# argument table for the public API (members not listed are read / called without arguments)
+RECV_ARGS = {
+    'set': {
+        'append': ['obj.append(S2)', 'obj.append(S2, S2)'], 'insert': ['obj.insert(0, S2)', 'obj.insert(-1, S2)', 'obj.insert(nd, S2, S2)', 'obj.insert(0)'],
+        'approx_contains': ['obj.approx_contains(mid1, 0.1)'], 'approx_equals': ['obj.approx_equals(S, 0.1)', 'obj.approx_equals(S2, 0.1)'],
+        'collapse': ['obj.collapse(0, float(S.min_pt[0]))', 'obj.collapse(nd - 1, float(S.max_pt[nd - 1]))',
+                     'obj.collapse(list(range(nd)), mid)', 'obj.collapse(0, mid[0]).collapse(0, float(S.min_pt[0]))'],
+        'contains_all': ['obj.contains_all(G.points().T)', 'obj.contains_all(G.meshgrid)'], 'contains_set': ['obj.contains_set(G)', 'obj.contains_set(S)', 'obj.contains_set(p)'],
+        'corners': ['obj.corners()', "obj.corners(order='F')"], 'dist': ['obj.dist(mid1)', 'obj.dist([v + 10 for v in mid] if nd > 1 else mid[0] + 10, exponent=1.0)'],
+        'element': ['obj.element()', 'obj.element(mid1)'], 'measure': ['obj.measure()', 'obj.measure(ndim=nd)'],
+        'squeeze': ['obj.squeeze()'], 'min': ['obj.min()'], 'max': ['obj.max()'],
+        '__getitem__': ['obj[0]', 'obj[::-1]', 'obj[[0, 0]]', 'obj[-1:]'], '__contains__': ['mid1 in obj'], '__eq__': ['obj == S2', 'obj == S'],
+        '__hash__': ['hash(obj)'], '__repr__': ['repr(obj)'], '__len__': ['len(obj)'], '__add__': ['obj + 1.0', 'obj + obj'], '__sub__': ['obj - 1.0'],
+        '__mul__': ['obj * 2.0', 'obj * obj'], '__neg__': ['-obj'], '__pos__': ['+obj'], '__truediv__': ['obj / 2.0'], '__rtruediv__': ['2.0 / (obj + (abs(float(S.min_pt.min())) + 1.0))'],
+    },
+    'grid': {
+        'append': ['obj.append(G2)', 'obj.append(G2, G2)'], 'insert': ['obj.insert(0, G2)', 'obj.insert(-1, G2)', 'obj.insert(nd, G2, G2)', 'obj.insert(0)'],
+        'approx_contains': ['obj.approx_contains(mid1, 0.1)'], 'approx_equals': ['obj.approx_equals(G, 0.1)', 'obj.approx_equals(G2, 0.1)'],
+        'is_subgrid': ['obj.is_subgrid(G)', 'obj.is_subgrid(G2, atol=0.1)'], 'corners': ['obj.corners()', "obj.corners(order='F')"],
+        'points': ['obj.points()', "obj.points(order='F')"], 'squeeze': ['obj.squeeze()', 'obj.squeeze(axis=0)', 'obj.squeeze(axis=-1)'],
+        'element': ['obj.element()'], 'min': ['obj.min()'], 'max': ['obj.max()'], 'convex_hull': ['obj.convex_hull()'],
+        'corner_grid': ['obj.corner_grid()'],
+        '__getitem__': ['obj[0]', 'obj[...]', 'obj[[0]]', 'obj[tuple([0] * nd)]', 'obj[::2]'], '__contains__': ['mid1 in obj'], '__eq__': ['obj == G2', 'obj == G'],
+        '__hash__': ['hash(obj)'], '__repr__': ['repr(obj)'], '__len__': ['len(obj)'], '__array__': ['np.asarray(obj)'],
+    },
+    'part': {
+        'append': ['obj.append(p2)', 'obj.append(p2, p2)'], 'insert': ['obj.insert(0, p2)', 'obj.insert(-1, p2)', 'obj.insert(nd, p2, p2)', 'obj.insert(0)'],
+        'approx_equals': ['obj.approx_equals(p, 0.1)', 'obj.approx_equals(p2, 0.1)'], 'index': ['obj.index(mid1)', 'obj.index(mid1, floating=True)'],
+        'squeeze': ['obj.squeeze()', 'obj.squeeze(axis=0)', 'obj.squeeze(axis=-1)', 'obj.squeeze(axis=[0])'],
+        'byaxis': ['obj.byaxis[0]', 'obj.byaxis[-1]', 'obj.byaxis[:]', 'obj.byaxis[[0, 0]]'], 'points': ['obj.points()'], 'min': ['obj.min()'], 'max': ['obj.max()'],
+        '__getitem__': ['obj[0]', 'obj[...]', 'obj[[0]]', 'obj[::2]', 'obj[-1]'], '__eq__': ['obj == p2', 'obj == p'], '__hash__': ['hash(obj)'],
+        '__repr__': ['repr(obj)'], '__len__': ['len(obj)'],
+    },
+}
+# getters that hand out the object's own state in the code at hand (main's decision: a caller writing into THESE is
+# outside C14's quantifier); for every other member the result is also overwritten and the receivers re-checked
+RECV_STATE_GETTERS = {'set': {'min_pt', 'max_pt', 'min', 'max', '__pos__'},   # +S is S itself
+                      'grid': {'coord_vectors', 'meshgrid'},
+                      'part': {'min_pt', 'max_pt', 'min', 'max', 'coord_vectors', 'meshgrid', 'cell_boundary_vecs', 'set', 'grid'}}
+
+
+def recv_calls():
+    """(which, member, expression) for every public member of IntervalProd / RectGrid / RectPartition (introspection)."""
+    import odl
+    out = []
+    for which, cls in (('set', odl.IntervalProd), ('grid', odl.RectGrid), ('part', odl.RectPartition)):
+        names = [n for n in dir(cls) if not n.startswith('_')] + sorted(k for k in RECV_ARGS[which] if k.startswith('__'))
+        for name in names:
+            if name in RECV_ARGS[which]:
+                for e in RECV_ARGS[which][name]:
+                    out.append((which, name, e))
+            else:
+                attr = getattr(cls, name)
+                if isinstance(attr, property) or not callable(attr):
+                    out.append((which, name, 'obj.%s' % name))
+                else:
+                    out.append((which, name, 'obj.%s()' % name))
+    return out
 
 # ------------------------------------------------------------------- probes
 def _rand_float_axis(rng, n=None):
@@ -882,14 +1040,108 @@ def probes(rng, tier):
                    "observed = (snap(p), snap(q)); ok = observed == expected\n" % expr)
             probe('derived-array-is-fresh-' + name, 'overwriting the array returned by %s changes no observable of any partition on that grid' % expr, src)
 
-    # -- P11 invalid nodes_on_bdry (wrong number of axes) is a ValueError in every factory
-    for ctor in ("odl.uniform_partition([0, 0], [1, 1], (2, 2), nodes_on_bdry=fl)",
-                 "odl.uniform_partition_fromintv(odl.IntervalProd([0, 0], [1, 1]), (2, 2), nodes_on_bdry=fl)",
-                 "odl.nonuniform_partition([0, 1], [0, 1], nodes_on_bdry=fl)"):
-        src = (_PRE + "fl = [True, False, True]\ntry:\n    %s\n    observed = 'accepted'\nexcept Exception as e:\n"
-               "    observed = type(e).__name__\nexpected = 'ValueError'; ok = observed == expected\n" % ctor)
-        key = 'nodes_on_bdry-wrong-length-error-class' if 'fromintv' not in ctor else 'nodes_on_bdry-wrong-length-fromintv'
-        probe(key, 'nodes_on_bdry with the wrong number of axes raises ValueError', src)
+    # -- P11 invalid nodes_on_bdry (wrong number of axes; plain, mixed bool/pair, nested) is a ValueError in every factory
+    for fl in ([True, False, True], [True, (False, True), False], [(True, False), (False, True), True], [True],
+               [(True, False), False, (True, True), False]):
+        for ctor in ("odl.uniform_partition([0, 0], [1, 1], (2, 2), nodes_on_bdry=fl)",
+                     "odl.uniform_partition_fromintv(odl.IntervalProd([0, 0], [1, 1]), (2, 2), nodes_on_bdry=fl)",
+                     "odl.nonuniform_partition([0, 1], [0, 1], nodes_on_bdry=fl)"):
+            src = (_PRE + "fl = %r\ntry:\n    %s\n    observed = 'accepted'\nexcept Exception as e:\n"
+                   "    observed = type(e).__name__\nexpected = 'ValueError'; ok = observed == expected\n" % (fl, ctor))
+            key = 'nodes_on_bdry-wrong-length-error-class' if 'fromintv' not in ctor else 'nodes_on_bdry-wrong-length-fromintv'
+            probe(key, 'nodes_on_bdry with the wrong number of axes raises ValueError', src)
+
+    # -- P12 no public method or property may change its receiver (nor any partition built on it), and what it returns
+    #    must not be a writable view of the receiver's state (except the documented state getters)
+    cls_name = {'set': 'IntervalProd', 'grid': 'RectGrid', 'part': 'RectPartition'}
+    for which, name, expr in recv_calls():
+        for _ in range(N):
+            nd = rng.choice([1, 2, 3])
+            axes = [rand_axis(rng, 4) for _a in range(nd)]
+            prm = {'lo': [a[0] for a in axes], 'hi': [a[1] for a in axes], 'css': [list(a[2]) for a in axes],
+                   'which': which, 'expr': expr}
+            probe('receiver-unchanged-%s.%s' % (cls_name[which], name),
+                  '%s on a %s in use by a partition leaves every array of the partition, its set and grid bit-identical '
+                  'and the partition tiling its domain' % (expr, cls_name[which]),
+                  RECV_PRE % dict(prm, write=False))
+            if name not in RECV_STATE_GETTERS[which]:
+                probe('result-shares-state-%s.%s' % (cls_name[which], name),
+                      'overwriting the arrays returned by %s leaves the receiver and the partition unchanged' % expr,
+                      RECV_PRE % dict(prm, write=True))
+
+    # -- P13 every method taking an axis / index argument against an independent NumPy-semantic reference:
+    #    negative ints, lists/arrays/1-tuples with negative entries, slices, out-of-range values
+    axis_ref = (
+        "def norm1(i, nd):\n"
+        "    i = int(i)\n"
+        "    if not -nd <= i < nd:\n        raise IndexError(i)\n"
+        "    return i + nd if i < 0 else i\n"
+        "def axes_of(arg, nd):\n"
+        "    if arg is None:\n        return list(range(nd))\n"
+        "    if isinstance(arg, slice):\n        return list(range(nd))[arg]\n"
+        "    if isinstance(arg, (list, tuple, np.ndarray)):\n        return [norm1(i, nd) for i in arg]\n"
+        "    return [norm1(arg, nd)]\n"
+        "A = lambda t: [(float(t.min_pt[i]), float(t.max_pt[i]), t.coord_vectors[i].tolist()) for i in range(t.ndim)]\n"
+        "def outcome(f):\n"
+        "    try:\n        return f()\n    except IndexError:\n        return 'IndexError'\n    except ValueError:\n        return 'ValueError'\n")
+
+    def rand_axis_arg(nd, allow_none=True):
+        kind = rng.choice(['int', 'negint', 'list', 'array', 'tuple1', 'slice', 'oob'] + (['none'] if allow_none else []))
+        if kind == 'none':
+            return 'None'
+        if kind == 'int':
+            return repr(rng.randrange(nd))
+        if kind == 'negint':
+            return repr(rng.randint(-nd, -1))
+        if kind == 'oob':
+            return repr(rng.choice([nd, nd + 1, -nd - 1, -nd - 2]))
+        if kind == 'slice':
+            return 'slice(%r, %r, %r)' % (rng.choice([None, 0, 1, -1, -nd]), rng.choice([None, nd, -1, 1]), rng.choice([None, 1, 2, -1]))
+        l = [rng.randint(-nd, nd - 1) for _ in range(rng.randint(1, 3))]
+        if rng.random() < 0.15:
+            l.append(rng.choice([nd, -nd - 1]))
+        if kind == 'list':
+            return repr(l)
+        if kind == 'array':
+            return 'np.array(%r)' % (l,)
+        return '(%r,)' % l[0]
+    for _ in range(40 * N):
+        nd = rng.choice([1, 2, 3, 4])
+        axes = [rand_axis(rng, 4, n=rng.choice([1, 1, 2, 3])) for _a in range(nd)]
+        base = _PRE + axis_ref + _mk_src(axes) + "nd = p.ndim; ax0 = A(p)\n"
+        arg = rand_axis_arg(nd)
+        probe('axis-arg-squeeze', 'RectPartition.squeeze(axis) for int / negative / list / array / 1-tuple / slice axis against the reference',
+              base + "arg = %s\n"
+              "def ref():\n    rng_ = axes_of(arg, nd)\n    return [a for i, a in enumerate(ax0) if i not in rng_ or len(a[2]) > 1]\n"
+              "expected = outcome(ref); observed = outcome(lambda: A(p.squeeze(arg))); ok = observed == expected\n" % arg)
+        probe('axis-arg-grid-squeeze', 'RectGrid.squeeze(axis) against the reference',
+              base + "arg = %s\n"
+              "def ref():\n    rng_ = axes_of(arg, nd)\n    return [a[2] for i, a in enumerate(ax0) if i not in rng_ or len(a[2]) > 1]\n"
+              "expected = outcome(ref)\n"
+              "observed = outcome(lambda: [v.tolist() for v in p.grid.squeeze(arg).coord_vectors]); ok = observed == expected\n" % arg)
+        arg = rand_axis_arg(nd, allow_none=False)
+        probe('axis-arg-byaxis', 'byaxis[...] for int / negative / list / array / 1-tuple / slice against the reference',
+              base + "arg = %s\n"
+              "def ref():\n    sel = axes_of(arg, nd)\n"
+              "    # a slice marks positions, so the axes come in their original order even for a negative step\n"
+              "    return [ax0[i] for i in (sorted(sel) if isinstance(arg, slice) else sel)]\n"
+              "expected = outcome(ref); observed = outcome(lambda: A(p.byaxis[arg])); ok = observed == expected\n" % arg)
+        idx = rng.choice([rng.randint(-nd, nd), 'np.int64(%d)' % rng.randint(-nd, nd), rng.choice([nd + 1, -nd - 1, nd + 2])])
+        k = rng.choice([1, 2])
+        probe('axis-arg-insert', 'insert(index, parts) for negative / NumPy-integer / out-of-range index against the reference',
+              base + "q1 = odl.uniform_partition(0, 1, 2); q2 = odl.nonuniform_partition([0, 1, 3], [5])\nparts = [q1, q2][:%d]\nidx = %s\n"
+              "def ref():\n    i = int(idx)\n    if not -nd <= i <= nd:\n        raise IndexError(i)\n    i = i + nd if i < 0 else i\n"
+              "    return ax0[:i] + [a for t in parts for a in A(t)] + ax0[i:]\n"
+              "expected = outcome(ref); observed = outcome(lambda: A(p.insert(idx, *parts))); ok = observed == expected\n"
+              "ok = ok and outcome(lambda: A(p.append(*parts))) == ax0 + [a for t in parts for a in A(t)]\n" % (k, idx))
+        cidx = rng.choice([rng.randrange(nd), sorted(rng.sample(range(nd), rng.randint(1, nd))), -1, nd, [0, nd]])
+        probe('axis-arg-collapse', 'IntervalProd.collapse(indices, values): listed axes collapse to the value, the others and the receiver stay',
+              base + "S = p.set; cidx = %r\nidxs = [cidx] if isinstance(cidx, int) else list(cidx)\n"
+              "vals = [float(S.mid_pt[i]) if 0 <= i < nd else 0.0 for i in idxs]\n"
+              "def ref():\n    if any(not 0 <= i < nd for i in idxs):\n        raise IndexError(idxs)\n"
+              "    lo = S.min_pt.tolist(); hi = S.max_pt.tolist()\n    for i, v in zip(idxs, vals):\n        lo[i] = v; hi[i] = v\n    return (lo, hi)\n"
+              "def run():\n    c = S.collapse(cidx, vals if not isinstance(cidx, int) else vals[0])\n    return (c.min_pt.tolist(), c.max_pt.tolist())\n"
+              "expected = outcome(ref); observed = outcome(run); ok = observed == expected and A(p) == ax0\n" % (cidx,))
 
     # -- P6 every consistent subset of (min_pt, max_pt, shape, cell_sides) gives the same partition
     for _ in range(40 * N):
